@@ -245,11 +245,11 @@ structure Env where
   /-- the six cell items of a cell (lengths printed by PyCifRW, angles by `"%.4f"`) -/
   cellpar : Mat3 → CellPar
 
-/-- `self.elements`: `[atom_type_elements[i] for i in atom_types]` -/
-def elementsOf (a : Atoms) : Except Err (List String) :=
-  match allSome (a.atoms.map (fun r => a.typeElems[r.ty]?)) with
-  | some l => .ok l
-  | none => .error .index
+/-- element of an atom row: `atom_type_elements[atom_types[i]]` (the type id is checked by `saveCif`) -/
+def elemOf (a : Atoms) (r : AtomRow) : String := a.typeElems.getD r.ty ""
+
+/-- `self.elements` -/
+def elementsOf (a : Atoms) : List String := a.atoms.map (elemOf a)
 
 /-- constructor invariant `check_extra_fields`: every row is as wide as the label list of its kind -/
 def widthsOk (a : Atoms) : Bool :=
@@ -268,54 +268,63 @@ def termRow (labs : List String) (arity : Nat) (atoms : List Nat) (extra : List 
 
 def coordRow (v : Vec3) : List String := [fmt4 v.x, fmt4 v.y, fmt4 v.z]
 
+def headItems : Block := [.item hmTag "P 1", .item numTag "1"]
+
+def cellItems (env : Env) (a : Atoms) : Block :=
+  match a.cell with
+  | none => []
+  | some c => List.zipWith Entry.item cellTags (env.cellpar c).toList
+
+/-- coordinate tags and the coordinate printed for a row.  Fractional output needs a cell (`WARNING … Using
+    cartesian coordinates`); a singular cell makes `np.linalg.inv` raise (`none`). -/
+def coordsFor (a : Atoms) (useFract : Bool) : Option (List String × (AtomRow → Vec3)) :=
+  match useFract, a.cell with
+  | true, some c => if c.det = 0 then none else some (fractTags, fun r => c.frac r.pos)
+  | _, _ => some (cartnTags, fun r => r.pos)
+
+def atomLoop (env : Env) (a : Atoms) (labs : List String) (ctags : List String) (coordOf : AtomRow → Vec3) : Entry :=
+  .loop ([labelTag, typeTag] ++ ctags ++ [chargeTag] ++ a.xlabels.map lc)
+    ((labs.zip a.atoms).map (fun (p : String × AtomRow) =>
+      [p.1, elemOf a p.2] ++ coordRow (coordOf p.2) ++ [env.reprQ p.2.charge] ++ p.2.extra))
+
+/-- one term kind: no loop when there are no terms -/
+def termLoop (labs : List String) (tags : List String) (arity : Nat) (t : TermTable) : Except Err Block :=
+  if t.terms.isEmpty then .ok []
+  else match allOk (t.terms.map (fun x => termRow labs arity x.atoms x.extra)) with
+    | .error e => .error e
+    | .ok rows => .ok [.loop (tags ++ t.xlabels.map lc) rows]
+
+/-- torsions: dihedrals followed by impropers under the DIHEDRAL extra labels; the extra columns passed are
+    `extra_dihedral_fields.T`, which has one entry per dihedral only → with impropers present PyCifRW's
+    `CreateLoop` raises ValueError (columns of different lengths).  The impropers' own extra columns are not written. -/
+def torsionLoop (labs : List String) (a : Atoms) : Except Err Block :=
+  if a.dihedrals.terms.isEmpty && a.impropers.terms.isEmpty then .ok []
+  else if !a.impropers.terms.isEmpty && !a.dihedrals.xlabels.isEmpty then .error (.reject "looplength")
+  else match allOk (a.dihedrals.terms.map (fun x => termRow labs 4 x.atoms x.extra)
+                    ++ a.impropers.terms.map (fun x => termRow labs 4 x.atoms [])) with
+    | .error e => .error e
+    | .ok rows => .ok [.loop (torsionTags ++ a.dihedrals.xlabels.map lc) rows]
+
 /-- `save_p1_cif(f, use_fract_coords=useFract)` up to the PyCifRW block it builds -/
 def saveCif (env : Env) (a : Atoms) (useFract : Bool) : Except Err Block :=
   if a.atoms.isEmpty then .error .domain          -- `positions[:,0]` on an empty array
   else if !widthsOk a then .error .domain         -- the constructor would have raised
+  else if a.atoms.any (fun r => r.ty ≥ a.typeElems.length) then .error .index   -- `atom_type_elements[i]`
   else
-  match elementsOf a with
-  | .error e => .error e
-  | .ok els =>
-  let labs := labels els
-  let head : Block := [.item hmTag "P 1", .item numTag "1"]
-  let cellItems : Block := match a.cell with
-    | none => []
-    | some c => List.zipWith Entry.item cellTags (env.cellpar c).toList
-  -- fractional output needs a cell (`WARNING … Using cartesian coordinates`)
-  let coords? : Option (List String × List Vec3) := match useFract, a.cell with
-    | true, some c => if c.det = 0 then none else some (fractTags, a.atoms.map (fun r => c.frac r.pos))
-    | _, _ => some (cartnTags, a.atoms.map (·.pos))
-  match coords? with
+  let labs := labels (elementsOf a)
+  match coordsFor a useFract with
   | none => .error .domain                        -- numpy LinAlgError: singular cell
-  | some (ctags, coords) =>
-  let atomRows : List (List String) :=
-    (labs.zip (els.zip (coords.zip a.atoms))).map (fun (l, e, v, r) =>
-      [l, e] ++ coordRow v ++ [env.reprQ r.charge] ++ r.extra)
-  let atomLoop : Entry := .loop ([labelTag, typeTag] ++ ctags ++ [chargeTag] ++ a.xlabels.map lc) atomRows
-  let termLoop := fun (tags : List String) (arity : Nat) (t : TermTable) =>
-    if t.terms.isEmpty then (.ok [] : Except Err Block)
-    else match allOk (t.terms.map (fun x => termRow labs arity x.atoms x.extra)) with
-      | .error e => .error e
-      | .ok rows => .ok [.loop (tags ++ t.xlabels.map lc) rows]
-  match termLoop bondTags 2 a.bonds with
+  | some (ctags, coordOf) =>
+  match termLoop labs bondTags 2 a.bonds with
   | .error e => .error e
   | .ok bondLoop =>
-  match termLoop angleTags 3 a.angles with
+  match termLoop labs angleTags 3 a.angles with
   | .error e => .error e
   | .ok angleLoop =>
-  -- torsions: dihedrals followed by impropers under the DIHEDRAL extra labels; the extra columns passed are
-  -- `extra_dihedral_fields.T`, as long as the dihedrals only → PyCifRW's CreateLoop raises ValueError
-  let torsion : Except Err Block :=
-    if a.dihedrals.terms.isEmpty && a.impropers.terms.isEmpty then .ok []
-    else if !a.impropers.terms.isEmpty && !a.dihedrals.xlabels.isEmpty then .error (.reject "looplength")
-    else match allOk (a.dihedrals.terms.map (fun x => termRow labs 4 x.atoms x.extra)
-                      ++ a.impropers.terms.map (fun x => termRow labs 4 x.atoms [])) with
-      | .error e => .error e
-      | .ok rows => .ok [.loop (torsionTags ++ a.dihedrals.xlabels.map lc) rows]
-  match torsion with
+  match torsionLoop labs a with
   | .error e => .error e
-  | .ok torsionLoop =>
-  let b : Block := head ++ cellItems ++ [atomLoop] ++ bondLoop ++ angleLoop ++ torsionLoop
+  | .ok torsLoop =>
+  let b : Block := headItems ++ cellItems env a ++ [atomLoop env a labs ctags coordOf] ++ bondLoop ++ angleLoop ++ torsLoop
   -- a data name used twice (an extra label equal to a handled tag or to another label) makes PyCifRW overwrite
   -- columns / move them between loops: outside the modelled domain
   if b.tags.Nodup' then .ok b else .error .domain
@@ -344,6 +353,11 @@ def rowsOf (n : Nat) (cols : List (List String)) : Option (List (List String)) :
   if cols.all (fun c => c.length == n) then some ((List.range n).map (fun i => cols.map (fun c => c.getD i "")))
   else none
 
+/-- length of the shortest column (python `zip(*cols)` yields that many tuples); no columns: 0 -/
+def minLen : List (List String) → Nat
+  | [] => 0
+  | c :: cs => cs.foldl (fun m c => min m c.length) c.length
+
 /-- one term kind: label columns → index tuples, placeholder types `range(len)`, extra tags = the keys of the loop
     that holds the first label tag minus the label tags, extra columns looked up in the block -/
 def loadTerms (b : Block) (names : List String) (tags : List String) : Option TermTable :=
@@ -351,9 +365,7 @@ def loadTerms (b : Block) (names : List String) (tags : List String) : Option Te
   else do
     let cols ← allSome (tags.map b.col?)
     -- zip(*cols): as many tuples as the shortest column
-    let m := match cols with
-      | [] => 0
-      | c :: cs => cs.foldl (fun m c => min m c.length) c.length
+    let m := minLen cols
     let tuples := (List.range m).map (fun i => cols.map (fun c => c.getD i ""))
     let idx ← allSome (tuples.map (resolveRow names))
     let ltags ← b.loopTags? (tags.headD "")
@@ -404,12 +416,25 @@ def placePositions (fract : Bool) (cell : Option Mat3) (raw : List Vec3) : List 
   | true, some c => raw.map (fun f => c.cart (wrap3 f))
   | _, _ => raw
 
-/-- everything after the P1 check; `none` = some Python exception (KeyError, ValueError, TypeError, …) -/
-def loadBody (lenv : LoadEnv) (b : Block) : Option Atoms := do
-  let (fr, raw) ← readCoords b
+/-- everything `load_p1_cif` reads besides the coordinates -/
+structure Parts where
+  names : List String
+  els : List String
+  charges : List Rat
+  xtags : List String
+  xrows : List (List String)
+  bonds : TermTable
+  angles : TermTable
+  dihedrals : TermTable
+  cell : Option Mat3
+  typeElems : List String
+  tys : List Nat
+  masses : List Rat
+
+/-- `n` = number of coordinate rows read -/
+def loadParts (lenv : LoadEnv) (b : Block) (n : Nat) : Option Parts := do
   let names ← b.col? labelTag
   let els ← b.col? typeTag
-  let n := raw.length
   let charges ← (if b.has chargeTag then do
       let cs ← b.col? chargeTag
       allSome (cs.map parseFloat)
@@ -426,14 +451,28 @@ def loadBody (lenv : LoadEnv) (b : Block) : Option Atoms := do
   let typeElems := dedup els
   let tys ← allSome (els.map (indexOf? typeElems))
   let masses ← allSome (typeElems.map lenv.massOf)
-  if n = 0 ∨ els.length ≠ n ∨ charges.length ≠ n then none
+  pure { names := names, els := els, charges := charges, xtags := xtags, xrows := xrows, bonds := bonds,
+         angles := angles, dihedrals := dihedrals, cell := cell, typeElems := typeElems, tys := tys, masses := masses }
+
+/-- the constructor: array lengths must agree (`assert_arrays_are_consistent_sizes`), then the fields are laid out -/
+def assemble (fr : Bool) (raw : List Vec3) (p : Parts) : Option Atoms :=
+  if raw.length = 0 ∨ p.tys.length ≠ raw.length ∨ p.charges.length ≠ raw.length ∨ p.xrows.length ≠ raw.length then none
   else
-    let pos := placePositions fr cell raw
-    pure { atoms := (tys.zip (pos.zip (charges.zip xrows))).map (fun (t, p, q, x) =>
-                      ({ ty := t, pos := p, charge := q, group := 0, extra := x } : AtomRow))
-           bonds := bonds, angles := angles, dihedrals := dihedrals, impropers := TermTable.empty
-           typeElems := typeElems, typeLabels := typeElems, typeMasses := masses
-           pairCoeffs := [], xlabels := xtags, cell := cell }
+    let pos := placePositions fr p.cell raw
+    some { atoms := (p.tys.zip (pos.zip (p.charges.zip p.xrows))).map (fun (t, q, c, x) =>
+                      ({ ty := t, pos := q, charge := c, group := 0, extra := x } : AtomRow))
+           bonds := p.bonds, angles := p.angles, dihedrals := p.dihedrals, impropers := TermTable.empty
+           typeElems := p.typeElems, typeLabels := p.typeElems, typeMasses := p.masses
+           pairCoeffs := [], xlabels := p.xtags, cell := p.cell }
+
+/-- everything after the P1 check; `none` = some Python exception (KeyError, ValueError, TypeError, …) -/
+def loadBody (lenv : LoadEnv) (b : Block) : Option Atoms :=
+  match readCoords b with
+  | none => none
+  | some (fr, raw) =>
+    match loadParts lenv b raw.length with
+    | none => none
+    | some p => assemble fr raw p
 
 /-- `Atoms.load_p1_cif` on the block PyCifRW has read -/
 def loadCif (lenv : LoadEnv) (b : Block) : Except Err Atoms :=
@@ -446,11 +485,16 @@ def loadCif (lenv : LoadEnv) (b : Block) : Except Err Atoms :=
 
 def renumber (ts : List Term) : List Term := ts.mapIdx (fun k t => { t with ty := k })
 
+/-- a term kind after the round trip: placeholder types, no coefficient table, lower-cased labels; a kind without
+    terms is not written at all, so its label list is not kept either -/
+def normTable (ts : List Term) (xl : List String) : TermTable :=
+  if ts.isEmpty then TermTable.empty else { terms := renumber ts, coeffs := [], xlabels := xl.map lc }
+
 /-- the structure `load_p1_cif(save_p1_cif(a))` should be: same atoms in order with types renumbered by first
     occurrence of the element, charges kept, printed coordinates (fractional ones wrapped and laid out in the
     re-read cell), term types replaced by placeholders, torsions = dihedrals ++ impropers, labels lower-cased -/
-def normCif (env : Env) (lenv : LoadEnv) (a : Atoms) (useFract : Bool) (els : List String) : Atoms :=
-  let typeElems := dedup els
+def normCif (env : Env) (lenv : LoadEnv) (a : Atoms) (useFract : Bool) : Atoms :=
+  let typeElems := dedup (elementsOf a)
   let cell' : Option Mat3 := match a.cell with
     | none => none
     | some c => lenv.cellOf ((env.cellpar c).toList.map stripSu)
@@ -460,15 +504,24 @@ def normCif (env : Env) (lenv : LoadEnv) (a : Atoms) (useFract : Bool) (els : Li
       let f := c.frac r.pos
       c'.cart (wrap3 ⟨fix4 f.x, fix4 f.y, fix4 f.z⟩)
     | _, _, _ => ⟨fix4 r.pos.x, fix4 r.pos.y, fix4 r.pos.z⟩
-  { atoms := (els.zip a.atoms).map (fun (e, r) =>
-      ({ ty := (indexOf? typeElems e).getD 0, pos := pos r, charge := r.charge, group := 0, extra := r.extra } : AtomRow))
-    bonds := { terms := renumber a.bonds.terms, coeffs := [], xlabels := a.bonds.xlabels.map lc }
-    angles := { terms := renumber a.angles.terms, coeffs := [], xlabels := a.angles.xlabels.map lc }
-    dihedrals := { terms := renumber (a.dihedrals.terms ++ a.impropers.terms.map (fun t => { t with extra := [] })),
-                   coeffs := [], xlabels := a.dihedrals.xlabels.map lc }
+  { atoms := a.atoms.map (fun r =>
+      ({ ty := (indexOf? typeElems (elemOf a r)).getD 0, pos := pos r, charge := r.charge, group := 0,
+         extra := r.extra } : AtomRow))
+    bonds := normTable a.bonds.terms a.bonds.xlabels
+    angles := normTable a.angles.terms a.angles.xlabels
+    -- torsions = dihedrals followed by impropers; the impropers' own extra columns are NOT written by the code
+    dihedrals := normTable (a.dihedrals.terms ++ a.impropers.terms.map (fun t => { t with extra := [] })) a.dihedrals.xlabels
     impropers := TermTable.empty
     typeElems := typeElems, typeLabels := typeElems
     typeMasses := typeElems.map (fun e => (lenv.massOf e).getD 0)
     pairCoeffs := [], xlabels := a.xlabels.map lc, cell := cell' }
+
+/-- no extra column may use a data name the reader gives a meaning to (it would be read as coordinates / labels / a
+    term loop, or be dropped as "handled") -/
+def reservedTags : List String :=
+  [hmTag, numTag] ++ cellTags ++ handledAtomTags ++ bondTags ++ angleTags ++ torsionTags
+
+def extraLabelsOk (a : Atoms) : Bool :=
+  (a.xlabels ++ a.bonds.xlabels ++ a.angles.xlabels ++ a.dihedrals.xlabels).all (fun l => !reservedTags.contains (lc l))
 
 end Mofun.Cif
